@@ -363,6 +363,8 @@ pub struct Ctx<F: Fam> {
     pub z: crate::zst::ZState,
     /// owner tags of an unexpected panic inside the next guarded call on the zero-sized collections
     pub z_panic_tags: Option<Vec<Prop>>,
+    /// key the next raw-entry chain looks up instead of the key it inserts (`probe_other`)
+    pub probe_next: Option<u32>,
     pub fresh: u32,
     pub universe: u32,
     pub op_index: usize,
@@ -436,6 +438,7 @@ impl<F: Fam> Ctx<F> {
             meta: [m0, m1, m2, m3],
             z: crate::zst::ZState::new(case.hashers[0]),
             z_panic_tags: None,
+            probe_next: None,
             fresh: 0,
             universe: case.universe.max(1),
             op_index: 0,
